@@ -166,6 +166,8 @@ class Interp:
         c = self.env[op['id']]
         if 'amb' in op:
             r = c.forall(self.env[op['amb']])
+        elif op.get('aslist'):
+            r = c.forall(self._cs(op['set']))
         else:
             r = c.forall(*self._cs(op['set']))
         self.env[op.get('to', op['id'])] = r
